@@ -60,7 +60,8 @@ class PostgreSQLQueryBuilder(QueryBuilder):
     def distinct_on(self, *fields: str | Term) -> "PostgreSQLQueryBuilder":  # type:ignore[return]
         for field in fields:
             if isinstance(field, str):
-                self._distinct_on.append(Field(field))
+                # a column given by name belongs to the first FROM item, as in select() / groupby() / orderby()
+                self._distinct_on.append(Field(field, table=self._from[0] if self._from else None))
             elif isinstance(field, Term):
                 self._distinct_on.append(field)
 
